@@ -41,6 +41,9 @@ type Desc struct {
 	// OnClose: the driver carries on-close hooks (generic and network level) that write "exit" and a
 	// return to the channel, as the shipped platform definitions do.
 	OnClose bool `json:"on_close,omitempty"`
+	// OpenFails: the transport refuses the connection this many times before the open that succeeds
+	// (the caller retries Open on the same driver object).
+	OpenFails int `json:"open_fails,omitempty"`
 	// AliveTracks: the transport model reports IsAlive false once the peer is gone (EOF / error seen).
 	AliveTracks bool  `json:"alive_tracks_peer,omitempty"`
 	Seed        int64 `json:"seed"`
@@ -205,7 +208,8 @@ func runClose(d Desc) mon.Result {
 	t00 := time.Now()
 	sc := scenarioFor(d.Driver)
 	before := libIDs()
-	cfg := devsim.Config{Seg: devsim.Seg{Mode: "fixed", Size: 16, Seed: d.Seed}, Close: devsim.CloseBehaviour(d.CloseB), KeepData: true, AliveTracksPeer: d.AliveTracks}
+	cfg := devsim.Config{Seg: devsim.Seg{Mode: "fixed", Size: 16, Seed: d.Seed}, Close: devsim.CloseBehaviour(d.CloseB), KeepData: true, AliveTracksPeer: d.AliveTracks,
+		OpenErrN: d.OpenFails}
 	if d.State == "idle-cycling" {
 		cfg.Poll = true
 	}
@@ -234,7 +238,20 @@ func runClose(d Desc) mon.Result {
 	ct := &ctl{a: d.A, b: d.B, randDelay: d.RandDelay, rnd: rand.New(rand.NewSource(d.Seed)), seen: map[string]bool{}}
 	cur.Store(ct)
 	defer cur.Store(nil)
+	for i := 0; i < d.OpenFails; i++ {
+		// the refused attempts: Open must fail, and fail cleanly
+		r := <-bounded(func() error { return sc.Pre(s) })
+		if r.pan != nil {
+			return mon.Result{Verdict: mon.Violated, Key: "c07/panic-in-caller:open-refused", Detail: fmt.Sprintf("Open on a refused connection panicked: %v", r.pan), NonTrivial: true}
+		}
+		if r.err == nil {
+			return mon.Result{Verdict: mon.Inconclusive, Detail: "Open succeeded although the transport refused the connection"}
+		}
+	}
 	if err := sc.Pre(s); err != nil {
+		if d.OpenFails > 0 {
+			return mon.Result{Verdict: mon.Inconclusive, Detail: "Open retried after a refused connection failed: " + err.Error()}
+		}
 		return mon.Result{Verdict: mon.Inconclusive, Detail: "open failed on a healthy connection: " + err.Error()}
 	}
 	s.Quiesce(3 * time.Second)
@@ -353,6 +370,7 @@ func runClose(d Desc) mon.Result {
 		}
 	}
 	// ---- Close
+	closesBefore := s.Conn.CloseCalls()
 	grace := time.Duration(d.ReadDelay) * time.Microsecond
 	grace = grace * (grace / 1000)
 	bound := grace + 5*time.Second
@@ -416,8 +434,8 @@ func runClose(d Desc) mon.Result {
 	if d.OnClose && d.Driver != "netconf" && onCloseRan.Load() == 0 {
 		return viol("c07/on-close-not-run:"+d.Driver, "Close returned but the on-close hooks never ran")
 	}
-	if s.Conn.CloseCalls() < 1 {
-		return viol("c07/transport-not-closed:"+d.Driver, "Close returned but the transport's Close was never called")
+	if s.Conn.CloseCalls() <= closesBefore {
+		return viol("c07/transport-not-closed:"+d.Driver, "Close returned but the transport's Close was not called by it (calls before: %d, after: %d)", closesBefore, s.Conn.CloseCalls())
 	}
 	// ---- leak clause: once the transport releases its reader no library goroutine may remain
 	if d.CloseB == string(devsim.CloseBlocked) {
@@ -449,6 +467,9 @@ func runClose(d Desc) mon.Result {
 	obs := map[string]int64{"closes": int64(nClose), "yield_hits": int64(cst.hits)}
 	if d.OnClose {
 		obs["closes_with_on_close_hooks"]++
+	}
+	if d.OpenFails > 0 {
+		obs["closes_after_refused_then_retried_open"]++
 	}
 	tags := []string{"driver=" + d.Driver, "state=" + d.State, "close=" + d.CloseB, fmt.Sprintf("readdelay=%d", d.ReadDelay), "order:" + sig}
 	if d.A != "" {
@@ -524,7 +545,7 @@ func gen(tier string, seed int64) []mon.Case {
 	n := 0
 	add := func(d Desc) {
 		d.Seed = seed*100003 + int64(n)
-		cs = append(cs, mon.MkCase(fmt.Sprintf("c07/%05d-%s-%s-%s-rd%d%s", n, d.Driver, d.State, d.CloseB, d.ReadDelay, map[bool]string{true: "-alive"}[d.AliveTracks]), d))
+		cs = append(cs, mon.MkCase(fmt.Sprintf("c07/%05d-%s-%s-%s-rd%d%s%s", n, d.Driver, d.State, d.CloseB, d.ReadDelay, map[bool]string{true: "-alive"}[d.AliveTracks], map[bool]string{true: fmt.Sprintf("-refused%d", d.OpenFails)}[d.OpenFails > 0]), d))
 		n++
 	}
 	drivers := []string{"generic", "network", "netconf"}
@@ -541,6 +562,10 @@ func gen(tier string, seed int64) []mon.Case {
 					// says nothing about Close (recorded as an observation in DESIGN.md)
 					if dr != "netconf" && rd == 250 && st != "op-blocked-in-write" {
 						add(Desc{Kind: "close", Driver: dr, State: st, CloseB: cb, ReadDelay: rd, OnClose: true})
+					}
+					if rd == 250 && cb != "blocked" && (st == "idle-blocked" || st == "peer-closed-unnoticed" || st == "err-parked" || st == "op-in-flight" || st == "second-close") {
+						// "after a successful open" that was preceded by refused attempts on the same object
+						add(Desc{Kind: "close", Driver: dr, State: st, CloseB: cb, ReadDelay: rd, OpenFails: 1 + n%2})
 					}
 					if rd == 250 && (strings.HasPrefix(st, "peer-closed") || strings.HasPrefix(st, "err-") || st == "error-arriving") {
 						add(Desc{Kind: "close", Driver: dr, State: st, CloseB: cb, ReadDelay: rd, AliveTracks: true, OnClose: dr != "netconf" && cb == "eof"})
